@@ -707,6 +707,9 @@ fn total(rep: &mut Report) {
         ("<const N: usize>", "", "[i32; N]"),
         ("<T = i32>", "", "T"),
         ("<T, U>", "where T: Clone", "(T, U)"),
+        ("<const N: usize = 4>", "", "[i32; N]"),
+        ("<T, const N: usize = 2>", "", "[T; N]"),
+        ("<'a, 'b: 'a, T: 'a>", "", "&'a std::borrow::Cow<'b, T>"),
     ];
     let idents: &[&str] = &["Item", "__", "_1", "é", "Ünï", "r#type", "r#fn"];
     let field_tys: &[&str] = &["i32", "Option<String>", "Vec<i32>", "Box<Item2>", "()"];
@@ -832,6 +835,29 @@ fn total(rep: &mut Report) {
                             attr(spelling, &vattr.join(", ")),
                         );
                         run_case(rep, src, false, Fields::Unit, Some(vf), &placed, spelling);
+                    }
+                }
+            }
+        }
+        // every triple of the representation-related container keys (the documented conflicts
+        // involve up to three of them), for every shape of the first variant
+        let rep_keys = ["tag", "content", "untagged", "rename_all", "rename_all_fields", "type", "as", "rename"];
+        let rep_opts: Vec<Opt> = e_opts.iter().filter(|o| o.form == "valid" && rep_keys.contains(&o.key)).cloned().collect();
+        for &vf in ALL_FIELDS {
+            for i in 0..rep_opts.len() {
+                for j in i + 1..rep_opts.len() {
+                    for k in j + 1..rep_opts.len() {
+                        let placed: Vec<Placed> = [i, j, k].iter().map(|&x| Placed { pos: "container", opt: rep_opts[x].clone() }).collect();
+                        if has_dup_key(&placed) {
+                            continue;
+                        }
+                        let cattr: Vec<&str> = placed.iter().map(|p| p.opt.text).collect();
+                        let payload = vf.render("", "i32", false);
+                        for order in [[0usize, 1], [1, 0]] {
+                            let vs = [format!("First{payload}"), "Other".to_string()];
+                            let src = format!("{} enum Item {{ {}, {} }}", attr(spelling, &cattr.join(", ")), vs[order[0]], vs[order[1]]);
+                            run_case(rep, src, false, Fields::Unit, Some(vf), &placed, spelling);
+                        }
                     }
                 }
             }
